@@ -27,7 +27,7 @@ func init() { registry["C09"] = runC09 }
 // earlier actions (numbers inside arrays, nested objects, saved bindings of a
 // failed step).
 func c09Spec(c *sim.Ctx) *ref.Spec {
-	vals := []interface{}{1.0, 2.5, []interface{}{1.0}, []interface{}{1.0, "x"}, map[string]interface{}{"q": 1.0}, map[string]interface{}{"q": []interface{}{2.0}}, nil, "x", []interface{}{[]interface{}{1.0}},
+	vals := []interface{}{1.0, 2.5, 1000000.0, []interface{}{1.0}, []interface{}{1.0, "x"}, map[string]interface{}{"q": 1.0}, map[string]interface{}{"q": []interface{}{2.0}}, nil, "x", []interface{}{[]interface{}{1.0}},
 		// objects inside arrays: a later in-place change reaches every part of the state that shares them
 		[]interface{}{map[string]interface{}{"tries": 0.0}}, []interface{}{map[string]interface{}{"q": 1.0}, []interface{}{map[string]interface{}{"r": 2.0}}},
 		[]interface{}{1.0, 2.0}}
@@ -208,6 +208,26 @@ func c09QuotaSpec(c *sim.Ctx) *ref.Spec {
 	}}
 }
 
+// c09GuardFailSpec: an action computes a large integer that stays bound; after the next
+// message a guard fails - whatever the diagnostics say about the bindings at that point
+// must read the same for a state that went through the store.
+func c09GuardFailSpec(c *sim.Ctx) *ref.Spec {
+	k := bsKeys[c.Intn(3, "gfkey")]
+	calc := &ref.Action{Ops: []ref.Op{{Kind: "set", K: k, V: bigVals[c.Intn(len(bigVals), "gfval")]}, {Kind: "set", K: "qty", V: 4.0}}}
+	boom := &ref.Action{Ops: []ref.Op{{Kind: "throw"}}}
+	if c.Bool("gfbadret") {
+		boom = &ref.Action{Ops: []ref.Op{{Kind: "retbad"}}}
+	}
+	report := &ref.Action{Ops: []ref.Op{{Kind: "emitb", K: "error"}, {Kind: "emitb", K: k}}}
+	return &ref.Spec{Nodes: map[string]*ref.Node{
+		"n0":    {HasBr: true, Type: "message", Branches: []*ref.Branch{{Target: "calc"}}},
+		"calc":  {Action: calc, HasBr: true, Type: "bindings", Branches: []*ref.Branch{{Target: "w"}}},
+		"w":     {HasBr: true, Type: "message", Branches: []*ref.Branch{{HasPat: true, Pattern: map[string]interface{}{"a": "?"}, Guard: boom, Target: "n0"}, {Target: "n0"}}},
+		"error": {HasBr: true, Type: "message", Branches: []*ref.Branch{{Target: "tell"}}},
+		"tell":  {Action: report, HasBr: true, Type: "bindings", Branches: []*ref.Branch{{Target: "n0"}}},
+	}}
+}
+
 // c09ExtSpec: an action of the extended interpreter keeps what the _.match utility
 // returned in its bindings; after the next message a pattern looks into it.
 func c09ExtSpec(c *sim.Ctx) *ref.Spec {
@@ -278,7 +298,9 @@ func runC09(c *sim.Ctx, t *testing.T) {
 	defer sim.Uninstall()
 	var gs *ref.Spec
 	genExt = false
-	switch c.Intn(9, "speckind") {
+	switch c.Intn(10, "speckind") {
+	case 9:
+		gs = c09GuardFailSpec(c)
 	case 8:
 		gs = c09QuotaSpec(c)
 	case 0, 1:
